@@ -1307,6 +1307,8 @@ func runC08(r *Run) {
 
 // filterKept renders which positions / keys Execute keeps (or "err").
 func filterKept(f *bexpr.Filter, data interface{}) (out string) {
+	enter("Execute", "(a filter)", data)
+	defer leave()
 	defer func() {
 		if p := recover(); p != nil {
 			out = "panic"
